@@ -22,6 +22,7 @@ def plan(tier, seed):
     specs = [{"kind": "pairs", "count": n // shards} for _ in range(shards)]
     for T in ([4] if tier == "quick" else [2, 4, 8, 16]):
         specs.append({"kind": "threads", "threads": T, "count": 160 if tier == "quick" else 1500})
+    specs.append({"kind": "cli", "count": 150 if tier == "quick" else 3000})
     return specs
 
 
@@ -94,7 +95,48 @@ def run_threads(spec, rec, lib):
                           "rule satisfied, rejected under %d concurrent threads" % spec["threads"], case)
 
 
+def run_cli(spec, rec, lib):
+    """the same rule through the command line's verify-metadata (files in, status out): status 0 iff the rule accepts"""
+    import json
+    import os
+
+    rng = random.Random(spec["seed"])
+    d = spec["scratch"]
+    tp, up = os.path.join(d, "trusted.json"), os.path.join(d, "offered.json")
+    for i in range(spec["count"]):
+        case = rootchain.gen_pair(rng)
+        try:
+            tb, ub = json.dumps(case["trusted"]), json.dumps(case["new"])
+            trusted, new = json.loads(tb), json.loads(ub)  # what the tool will read
+        except (TypeError, ValueError):
+            continue
+        if not (isinstance(new, dict) and isinstance(new.get("signed"), dict) and new["signed"].get("type") == "root"):
+            continue  # the command line dispatches on the offered file's declared type
+        model, failed = models.root_verdict(trusted, new)
+        if model.v == models.GREY:
+            continue
+        with open(tp, "w") as f:
+            f.write(tb)
+        with open(up, "w") as f:
+            f.write(ub)
+        try:
+            o = boundary.call(lib, lib.cli.cli, ["verify-metadata", tp, up])
+            ret = o.value if o.accepted else 1
+        except SystemExit as e:
+            ret = e.code
+        status = 0 if ret is None else ((ret & 0xFF) if isinstance(ret, int) and not isinstance(ret, bool) else 1)
+        rec.case("cli|" + dkey(case, failed))
+        rec.count("cli_pairs")
+        if model.v == models.REJECT and status == 0:
+            rec.violation("unsound-accept/verify-metadata[root]/failed=" + ",".join(sorted(failed)),
+                          "the command line reports status 0 for an offered root the rule refuses (%s)" % ",".join(failed), case)
+        if model.v == models.ACCEPT and status != 0:
+            rec.violation("false-reject/verify-metadata[root]/status=%s" % status, "rule satisfied but the command line reports status %s" % status, case)
+
+
 def run_shard(spec, rec, lib):
+    if spec.get("kind") == "cli":
+        return run_cli(spec, rec, lib)
     if spec.get("kind") == "threads":
         return run_threads(spec, rec, lib)
     rng = random.Random(spec["seed"])
